@@ -108,6 +108,8 @@ func newWorld() *world {
 	sum = new(big.Int).Set(sum)
 	for i, h := range holders {
 		b := env.Amount("bal"+string(rune('0'+i)), 128)
+		// every holder holds something (zero / exactly-spent balances are explored by the StateDB-level harnesses)
+		verif.Assume(b.Sign() > 0)
 		e.SetBalance(h[:], Denom, b)
 		w.ref.Bal[h] = b
 		sum = new(big.Int).Add(sum, b)
@@ -245,7 +247,12 @@ func (w *world) step(pfx string, sdb evmvm.CStateDB) {
 		w.ref.Allow[[2]common.Address{o, sp}] = v
 	}
 	setAllow(pfx+".allowance", a1, caller)
-	setAllow(pfx+".bystanderAllowance", caller, a1)
+	if verif.Bool(pfx + ".bystanderAllowance") {
+		by := env.Amount(pfx+".bystanderAllowance.value", 256)
+		verif.Assume(by.Sign() > 0)
+		w.e.CK.SetErc20CpcAllowance(ctx, caller, a1, by)
+		w.ref.Allow[[2]common.Address{caller, a1}] = by
+	}
 	logsBefore := len(sdb.GetTransactionLogs())
 
 	before := w.ref.clone()
@@ -309,6 +316,20 @@ func H_C10_1_OneCall() {
 	sdb := w.e.NewStateDB(w.e.Ctx, Coinbase)
 	verif.Assert("initial-state-equals-reference", w.sameAsRef(sdb))
 	w.step("call1", sdb)
+}
+
+// H_C10_3_Views: the views after an arbitrary transfer (balanceOf / totalSupply / allowance equal bank and
+// allowance state, change nothing, work under STATICCALL).
+func H_C10_3_Views() {
+	w := newWorld()
+	sdb := w.e.NewStateDB(w.e.Ctx, Coinbase)
+	amt := env.Amount("amount", 256)
+	_, _ = w.call(sdb, X1, callData("transfer", X2, amt), false)
+	if w.ref.refMove(X1, X2, amt) {
+		verif.Reach("after-successful-transfer")
+	}
+	w.e.CK.SetErc20CpcAllowance(sdb.GetCurrentContext(), X2, X1, amt)
+	w.ref.Allow[[2]common.Address{X2, X1}] = amt
 	w.views(sdb)
 }
 
@@ -318,13 +339,12 @@ func H_C10_2_TwoCalls() {
 	sdb := w.e.NewStateDB(w.e.Ctx, Coinbase)
 	w.step("call1", sdb)
 	w.step("call2", sdb)
-	w.views(sdb)
 }
 
 // views: balanceOf / totalSupply / allowance return exactly the bank / allowance state, change nothing, and work
 // in a static context.
 func (w *world) views(sdb evmvm.CStateDB) {
-	who := holders[verif.Choice("view.who", len(holders))]
+	who := parties[verif.Choice("view.who", len(parties))]
 	other := X1
 	static := verif.Bool("view.static")
 	ctx := sdb.GetCurrentContext()
